@@ -102,7 +102,9 @@ CheckCfg(k) ==
   LET o     == Cfgs[k]
       shape == Shapes[o.sh]
       want  == Expected(shape, o.cfg, Fl(o, FALSE))
-      alg   == ReparseCfg(shape, o.cfg, o.fmt, Fl(o, FALSE))
+      \* under skip_default a set is compared with its default as the LIST python happened to iterate it into: not decided here
+      setOrder == o.sd /\ ((\E n \in 1..Len(o.cfg.top) : HasSet(o.cfg.top[n])) \/ (\E n \in 1..Len(o.cfg.sub) : HasSet(o.cfg.sub[n])))
+      alg   == IF setOrder THEN Unsure ELSE ReparseCfg(shape, o.cfg, o.fmt, Fl(o, FALSE))
       devs  == CfgDeviations(shape, o.cfg, o.fmt, Fl(o, FALSE))
       tree  == DumpTree(shape, o.cfg, Fl(o, FALSE))
       asAlg == (IsErr(o.re) /\ IsErr(alg)) \/ (~Bad(o.re) /\ ~Bad(alg) /\ o.re.sel = alg.sel /\ Len(o.re.top) = Len(alg.top) /\ Len(o.re.sub) = Len(alg.sub)
